@@ -45,6 +45,31 @@ def stripFixedGo : List Tok → List Tok → List Tok
 
 def stripFixed (ts : List Tok) : List Tok := stripFixedGo ts []
 
+/-! ### Spacing of punctuation
+
+A `TokenTree::Punct` carries a spacing: `Joint` when another punctuation character follows it directly, as the comma of
+`Debug,::logos::Logos` does.  `util::is_punct` used to accept a character only with spacing `Alone`; the rewrite above,
+which asks it for the separators, then took `Debug,::logos::Logos` for one entry ending in `Logos` and dropped `Debug`
+with it (defect D11).  `stripAlone` is that behaviour; the repaired test ignores the spacing of a comma, which is
+`stripSpaced`. -/
+
+structure STok where
+  tok : Tok
+  joint : Bool := false
+deriving Repr, DecidableEq
+
+/-- the rewrite with `is_punct` as found: a comma separates only when its spacing is `Alone` -/
+def stripAloneGo : List STok → List Tok → List Tok
+  | [], cur => if isLogosEntry cur then [] else cur
+  | ⟨.comma, false⟩ :: rest, cur =>
+    (if isLogosEntry cur then [] else cur ++ [.comma]) ++ stripAloneGo rest []
+  | t :: rest, cur => stripAloneGo rest (cur ++ [t.tok])
+
+def stripAlone (ts : List STok) : List Tok := stripAloneGo ts []
+
+/-- the repaired rewrite: the spacing of a comma is not looked at -/
+def stripSpaced (ts : List STok) : List Tok := stripFixed (ts.map (·.tok))
+
 /-! ## logos-cli: `--output` / `--check` (logos-cli/src/main.rs) -/
 
 /-- `str::lines`: split at `\n`, drop one trailing `\r` per line, no empty last line -/
